@@ -352,6 +352,15 @@ def _bind_one(
     # Note: when assume_layers=True, clone_keys can contain keys of the omit collections
     # that are not top-level. This is OK, as they will never be encountered inside the
     # values of their dependent layers.
+    if omit_keys:
+        # assume_layers=False: a layer none of whose keys is to be cloned belongs to the
+        # omit collections; copy it verbatim instead of renaming it, or its dependents
+        # (which keep referring to its keys) and its name would disagree
+        omit_layers = omit_layers | {
+            layer_name
+            for layer_name, layer in dsk.layers.items()
+            if not (layer.get_output_keys() & clone_keys)
+        }
 
     if blocker is not None:
         blocker_key = blocker.key
